@@ -2070,6 +2070,15 @@ impl<'a> CompilerState<'a> {
                 Rule::id_name => {
                     name = pair.as_str().to_string();
                     superstart = Some(start);
+                    // cctmp is the compiler's scratch byte and cctmp<n> its string literals
+                    if let Some(n) = name.strip_prefix("cctmp") {
+                        if n.chars().all(|c| c.is_ascii_digit()) {
+                            return Err(self.syntax_error(
+                                &format!("Function name {} is reserved", &name),
+                                start,
+                            ));
+                        }
+                    }
                 }
                 Rule::var_sign => {
                     return_signed = pair.as_str().eq("return_signed");
